@@ -6,6 +6,7 @@ require (
 	github.com/ProtonMail/gluon v0.0.0
 	github.com/anishathalye/porcupine v1.3.0
 	github.com/emersion/go-imap v1.2.1
+	github.com/mattn/go-sqlite3 v1.14.22
 	github.com/pierrec/lz4/v4 v4.1.17
 	github.com/sirupsen/logrus v1.9.2
 )
@@ -13,7 +14,6 @@ require (
 require (
 	github.com/bradenaw/juniper v0.12.0 // indirect
 	github.com/google/uuid v1.3.0 // indirect
-	github.com/mattn/go-sqlite3 v1.14.22 // indirect
 	golang.org/x/exp v0.0.0-20230510235704-dd950f8aeaea // indirect
 	golang.org/x/sync v0.2.0 // indirect
 	golang.org/x/sys v0.8.0 // indirect
